@@ -10,10 +10,13 @@ pattern in order, then `BuildFailureLinks` (`none` = panic); `IsNode ps n` – `
 or a prefix of a pattern's rune sequence; `lns ps l` / `lps ps l` – longest (proper) suffix
 of `l` that is a node; `IsOcc pats text s` – scope `s` lies inside `text`, is non-empty and
 `text[s.start:s.stop]` is an inserted non-empty pattern (byte for byte); `ValidUtf8 p` – no
-decoding step of `p` is an invalid byte.
+decoding step of `p` is an invalid byte; `Aligned A p B` – the occurrence of `p` in
+`A ++ p ++ B` starts and ends at a step boundary of the decoded text and is decoded like `p`
+itself (always true for valid-UTF-8 `p`).
 -/
 import Golib.Proof.C05Exact
 import Golib.Proof.C05Search
+import Golib.Proof.C05Aligned
 
 namespace Golib.C05
 open Golib
@@ -133,6 +136,66 @@ theorem c05_match_iff (pats : List (List Nat)) (text : List Nat) (hp : ∀ p ∈
     intro hnil
     have := hcomp A p B htext hpm hne hv
     rw [hnil] at this; simp at this
+
+/-- `find` is exact for ARBITRARY byte patterns too: it reports exactly the occurrences of
+inserted non-empty patterns that are aligned with the decoding of the text (`Aligned`: the
+text decodes as steps consuming the bytes before the occurrence, then the steps of the
+pattern).  Every occurrence of a valid-UTF-8 pattern in arbitrary bytes is aligned
+(`c05_aligned_of_valid`), which gives the completeness half of `c05_find_exact`; for a
+pattern with invalid bytes the restriction cannot be dropped (example below). -/
+theorem c05_find_iff (pats : List (List Nat)) (text : List Nat) (hp : ∀ p ∈ pats, Bytes p)
+    (ht : Bytes text) (t : Trie) (hbuilt : Trie.ofPatterns pats = some t) :
+    ∃ scopes, t.find text = some scopes ∧ scopes.Nodup ∧
+      ∀ s, s ∈ scopes ↔ ∃ A p B, text = A ++ p ++ B ∧ p ∈ pats ∧ p ≠ [] ∧ Aligned A p B ∧
+        s = ⟨(A.length : Int), ((A.length + p.length : Nat) : Int)⟩ := by
+  obtain ⟨hf, _, _⟩ := find_sound pats text hp ht t hbuilt
+  obtain ⟨t', h1, h2, _⟩ := ofPatterns_spec pats
+  rw [hbuilt] at h1; cases h1
+  refine ⟨_, hf, ?_, ?_⟩
+  · rw [h2]
+    exact findSpec_nodup _ (decodedPats_wf pats hp) _ [] 0 (decodeAll_wf text ht) rfl
+  · intro s
+    rw [h2]
+    exact find_iff_aligned pats text hp ht s
+
+/-- Self-synchronisation: an occurrence of a non-empty valid-UTF-8 string inside arbitrary
+bytes is aligned with the decoding of the text. -/
+theorem c05_aligned_of_valid (A p B : List Nat) (hb : Bytes (A ++ p ++ B)) (hv : ValidUtf8 p)
+    (hne : p ≠ []) : Aligned A p B := aligned_of_valid A p B hb hv hne
+
+/-- The restriction of completeness to valid-UTF-8 patterns (or aligned occurrences) is
+forced by the code, not by the proof: the pattern `E4` (a lone lead byte, not valid UTF-8)
+occurs byte for byte in `E4 BD A0` (你), but the text decodes as one rune and nothing is
+found; in `E4 41` the same byte is an invalid byte of the text and is found. -/
+example : (Trie.ofPatterns [[0xE4]]).bind (fun t => t.findAll [0xE4, 0xBD, 0xA0]) = some [] ∧
+    (Trie.ofPatterns [[0xE4]]).bind (fun t => t.match [0xE4, 0xBD, 0xA0]) = some false ∧
+    (Trie.ofPatterns [[0xE4]]).bind (fun t => t.findAll [0xE4, 0x41]) = some [[0xE4]] := by
+  refine ⟨by decide +kernel, by decide +kernel, by decide +kernel⟩
+
+/-- `Match` as an iff, for pattern sets made of runes (every pattern valid UTF-8, as the
+property quantifies) and ARBITRARY byte texts: `Match(text)` is true iff some non-empty
+inserted pattern occurs in the text as a byte substring.  The empty pattern never counts
+(`Insert("")` is a no-op) and the empty text matches nothing. -/
+theorem c05_match_iff_valid (pats : List (List Nat)) (text : List Nat) (hp : ∀ p ∈ pats, Bytes p)
+    (hv : ∀ p ∈ pats, ValidUtf8 p) (ht : Bytes text) (t : Trie) (hbuilt : Trie.ofPatterns pats = some t) :
+    ∃ b, t.match text = some b ∧
+      (b = true ↔ ∃ A p B, text = A ++ p ++ B ∧ p ∈ pats ∧ p ≠ []) := by
+  obtain ⟨b, hm, h1, h2⟩ := c05_match_iff pats text hp ht t hbuilt
+  refine ⟨b, hm, h1, ?_⟩
+  rintro ⟨A, p, B, htext, hpm, hne⟩
+  exact h2 A p B htext hpm hne (hv p hpm)
+
+/-- Empty pattern and empty text: the pattern set {""} matches nothing, not even the empty
+text; the set {"", "a", "a"} (empty pattern, duplicate) behaves like {"a"}: `Match("")` is
+false and `FindAll("aa")` has one entry per position, not per inserted copy. -/
+example : (Trie.ofPatterns [[]]).bind (fun t => t.match []) = some false ∧
+    (Trie.ofPatterns [[]]).bind (fun t => t.match [97]) = some false ∧
+    (Trie.ofPatterns [[]]).bind (fun t => t.findAll [97]) = some [] ∧
+    (Trie.ofPatterns [[], [97], [97]]).bind (fun t => t.match []) = some false ∧
+    (Trie.ofPatterns [[], [97], [97]]).bind (fun t => t.findAll [97, 97]) = some [[97], [97]] ∧
+    (Trie.ofPatterns [[], [97], [97]]).bind (fun t => t.prefixSearch []) = some [[97]] := by
+  refine ⟨by decide +kernel, by decide +kernel, by decide +kernel, by decide +kernel,
+    by decide +kernel, by decide +kernel⟩
 
 /-- `FindAll(text)` never panics and returns, in `find`'s order, exactly one entry per scope
 of `find` — the entry being the matched pattern itself (`text[start:stop]`, an inserted
